@@ -94,6 +94,11 @@ def seq_items(I, v):
 def concrete_iter(I, it):
     if isinstance(it, IterV):
         it = it.seq
+    if isinstance(it, MaskedSel):
+        r = resolve_masked(I, it)
+        if r is None:
+            return None
+        it = r
     items = seq_items(I, it)
     if items is not None:
         return items
@@ -277,6 +282,16 @@ def getitem(I, obj, idx):
             if isinstance(idx, SV):
                 return _sym_index_concrete(I, cell, idx)
             if isinstance(idx, tuple) and obj.nd:
+                if len(idx) == 2 and all(isinstance(q, Ref) and q.kind == 'clist' for q in idx):
+                    # a[rows, cols] with two index arrays of equal length: the entries a[rows[k]][cols[k]]
+                    rs, cs = st.heap[idx[0]], st.heap[idx[1]]
+                    if len(rs) != len(cs):
+                        raise PyExc('IndexError', 'shape mismatch: indexing arrays could not be broadcast together')
+                    return st.alloc('clist', [getitem(I, getitem(I, obj, r_), c_) for r_, c_ in zip(rs, cs)], nd=True)
+                if isinstance(idx[0], slice) and not any(isinstance(x, SV) for x in (idx[0].start, idx[0].stop, idx[0].step)):
+                    # a[lo:hi, rest]: `rest` applied to each selected row
+                    rest = idx[1] if len(idx) == 2 else idx[1:]
+                    return st.alloc('clist', [getitem(I, r_, rest) for r_ in cell[idx[0]]], nd=True)
                 row = getitem(I, obj, idx[0])
                 return getitem(I, row, idx[1] if len(idx) == 2 else idx[1:])
             if isinstance(idx, Ref):
@@ -624,7 +639,7 @@ def list_assign_all(I, target, v):
     st.note_write(target)
     v = _store_cast(I, target, v)
     if target.kind == 'clist':
-        items = seq_items(I, v)
+        items = concrete_iter(I, v)
         if items is not None:
             if target.nd and len(items) != len(st.heap[target]):
                 if len(items) == 1:
@@ -680,7 +695,7 @@ def list_extend(I, target, v):
     if isinstance(v, IterV):
         v = v.seq
     if target.kind == 'clist':
-        items = seq_items(I, v)
+        items = concrete_iter(I, v)
         if items is not None:
             st.heap[target].extend(items)
             return
@@ -812,9 +827,51 @@ def _is_bool_mask(I, idx):
     return bool(items) and all(numkind(x) == 'bool' for x in items)
 
 
+def resolve_masked(I, sel):
+    """the array a[mask] itself, for a concrete-shaped `a` and a 1-d mask over its first axis: every symbolic mask entry
+    is DECIDED (one path per truth value), so the selection has a concrete length on each path"""
+    src, mask = sel.src, sel.mask
+    if not (isinstance(src, Ref) and src.kind == 'clist' and isinstance(mask, Ref) and mask.kind == 'clist'):
+        return None
+    items, ms = I.st.heap[src], I.st.heap[mask]
+    if any(is_list(m) for m in ms):
+        return None
+    if len(items) != len(ms):
+        raise PyExc('IndexError', 'boolean index did not match indexed array')
+    out = []
+    for x, m in zip(items, ms):
+        t = I.truth_term(m)
+        if t if isinstance(t, bool) else I.st.branch(t):
+            out.append(snapshot_copy(I, x) if is_list(x) else x)
+    return I.st.alloc('clist', out, nd=True)
+
+
 def fancy_index(I, obj, idx):
     if _is_bool_mask(I, idx):
         return MaskedSel(obj, idx)
+    if isinstance(idx, Ref) and idx.kind == 'clist' and idx.nd and isinstance(obj, Ref) and obj.kind == 'clist' and obj.nd \
+            and I.st.heap[idx] and all(_is_bool_mask(I, r_) and r_.kind == 'clist' for r_ in I.st.heap[idx]):
+        # a[mask2d]: the entries (sub-arrays) a[i][j] with mask2d[i][j] true, in row-major order; every symbolic mask
+        # entry is decided (one path per truth value)
+        rows, mrows = I.st.heap[obj], I.st.heap[idx]
+        if len(rows) != len(mrows) or any(not (is_list(r_) and r_.kind == 'clist' and len(I.st.heap[r_]) == len(I.st.heap[m_]))
+                                          for r_, m_ in zip(rows, mrows)):
+            raise PyExc('IndexError', 'boolean index did not match indexed array')
+        out = []
+        for r_, m_ in zip(rows, mrows):
+            for x, b_ in zip(I.st.heap[r_], I.st.heap[m_]):
+                t = I.truth_term(b_)
+                if t if isinstance(t, bool) else I.st.branch(t):
+                    out.append(snapshot_copy(I, x) if is_list(x) else x)
+        return I.st.alloc('clist', out, nd=True)
+    if isinstance(idx, Ref) and idx.kind == 'clist' and isinstance(obj, Ref) and obj.kind == 'clist' and obj.nd \
+            and I.st.heap[idx] and all(isinstance(k, int) and not isinstance(k, bool) for k in I.st.heap[idx]):
+        # integer-array indexing with concrete indices: a copy of the selected entries / rows, in the order given
+        out = []
+        for k in I.st.heap[idx]:
+            x = getitem(I, obj, k)
+            out.append(snapshot_copy(I, x) if is_list(x) else x)
+        return I.st.alloc('clist', out, nd=True)
     if isinstance(idx, Ref) and idx.kind == 'clist' and idx.nd and not I.st.heap[idx] and \
             isinstance(obj, Ref) and obj.kind == 'clist' and not I.st.heap[obj]:
         return MaskedSel(obj, idx)          # empty array selected by the (empty) result of a comparison on it
@@ -1023,6 +1080,11 @@ def pow_axioms(I, base, n):
 def binop(I, op, a, b):
     if isinstance(a, MaskedSel) or isinstance(b, MaskedSel):
         return masked_binop(I, op, a, b)
+    if isinstance(a, Ref) and a.kind == 'set' and isinstance(op, (ast.Sub, ast.BitOr, ast.BitAnd)):
+        if not (isinstance(b, Ref) and b.kind == 'set'):
+            raise PyExc('TypeError', 'unsupported operand type(s) for set operator')
+        meth = {ast.Sub: 'difference', ast.BitOr: 'union', ast.BitAnd: 'intersection'}[type(op)]
+        return I.call(getattr(I, a, meth), [b], {})
     # sequences
     if is_list(a) or is_list(b) or isinstance(a, tuple) or isinstance(b, tuple):
         nd = (is_list(a) and a.nd) or (is_list(b) and b.nd)
@@ -1226,6 +1288,8 @@ def contains(I, cont, x):
     if isinstance(cont, str) and isinstance(x, str):
         return x in cont
     items = seq_items(I, cont)
+    if items is None and isinstance(cont, (_Zip, _Enum, IterV)):
+        items = concrete_iter(I, cont)         # (a one-shot iterator searched once)
     if items is not None:
         r = False
         for y in items:
@@ -1298,6 +1362,10 @@ def getattr(I, obj, name):
                 if v is UNDEF:
                     raise PyExc('AttributeError', name)
                 return v
+            if name == '__module__' and obj.cls is not None and obj.cls.lookup('__module__') is UNDEF:
+                return obj.cls.module.name
+            if name == '__class__' and obj.cls is not None:
+                return ClassRef(obj.cls)
             if name == '__doc__' and obj.cls is not None:
                 import ast as _ast
                 for c in obj.cls.mro():
@@ -1317,6 +1385,10 @@ def getattr(I, obj, name):
                         return getattr(I, tuple(cell['__items__']), name)
             if cell.get('__open__'):
                 raise Unsupported('attribute %s of an object with undeclared fields' % name)
+            if obj.cls is not None and not (name.startswith('__') and name.endswith('__')):
+                ga = obj.cls.lookup('__getattr__')          # the class's fallback for attributes not found normally
+                if isinstance(ga, Closure):
+                    return I.call(ga, [obj, name], {})
             raise PyExc('AttributeError', name)
         return container_method(I, obj, name)
     if isinstance(obj, Closure) or isinstance(obj, AbsFun) or isinstance(obj, Builtin):
@@ -1444,6 +1516,18 @@ def setattr(I, obj, name, v):
     if isinstance(obj, ClassRef):
         obj.info.attrs[name] = v      # class attribute (state of this path's interpreter only)
         return
+    if name == 'shape' and isinstance(obj, Ref) and obj.kind == 'clist' and obj.nd:
+        # in-place reshape of a concrete-shaped array: same object, same entries in row-major order
+        from . import lib as _lib
+        n = _lib.nd_nested(I, obj)
+        if n is None or not isinstance(v, tuple):
+            raise Unsupported('shape assignment on an array of symbolic shape')
+        new = _lib.nd_reshape(_lib.nd_flat(n), v)
+        if not isinstance(new, list):
+            raise Unsupported('reshape to a 0-d array')
+        I.st.note_write(obj)
+        I.st.heap[obj] = [_lib.nd_build(I, y) for y in new]
+        return
     raise Unsupported('attribute assignment on %r' % (obj,))
 
 
@@ -1552,7 +1636,28 @@ def container_method(I, obj, name):
                 return _lib.np_transpose(I, obj)
             return obj
         if name in ('shape',):
+            if obj.kind == 'clist' and st.heap[obj] and any(is_list(x) for x in st.heap[obj]):
+                from . import lib as _lib
+                n = _lib.nd_nested(I, obj)
+                if n is None:
+                    raise Unsupported('shape of an array with rows of symbolic length')
+                return _lib.nd_shape(n)
+            if obj.kind == 'rows':
+                c = st.heap[obj]
+                return (SV(c['len'], 'int'), SV(c['ncols'], 'int'))
             return (list_len(I, obj),)
+        if name == 'reshape' and obj.nd:
+            def reshape(I_, a, k):
+                from . import lib as _lib
+                shp = a[0] if len(a) == 1 and isinstance(a[0], tuple) else tuple(a)
+                n = _lib.nd_nested(I_, obj)
+                if n is None or k:
+                    raise Unsupported('reshape of an array of symbolic shape')
+                return _lib.nd_build(I_, _lib.nd_reshape(_lib.nd_flat(n), shp))
+            return B(reshape)
+        if name == 'ptp' and obj.nd:
+            f = lib_lookup(I, 'numpy.ptp')
+            return B(lambda I_, a, k: I_.call(f, [obj] + a, k))
         if name == 'ndim' and obj.nd:
             if obj.kind == 'clist' and st.heap[obj] and all(is_list(x) for x in st.heap[obj]):
                 inner = st.heap[obj][0]
@@ -1570,7 +1675,12 @@ def container_method(I, obj, name):
             return B(tr)
         if name == 'size' and obj.nd:
             if obj.kind == 'clist' and any(is_list(x) for x in st.heap[obj]):
-                raise Unsupported('size of a 2-d array')
+                from . import lib as _lib
+                n = _lib.nd_nested(I, obj)
+                if n is None:
+                    raise Unsupported('size of an array with rows of symbolic length')
+                _lib.nd_shape(n)
+                return len(_lib.nd_flat(n))
             return list_len(I, obj)
         if name == 'dtype' and obj.nd:
             return TypeTag(nd_dtype(I, obj))
